@@ -571,3 +571,90 @@ def check_memoryless(chk, ix, entries, rule="RF8", depth=3):
                              "%s (reached from %s) writes the %s container at line %d: what a call returns then depends on earlier calls "
                              "(another input with the same key, a file that changed meanwhile, another class using the same table)"
                              % (f.fullname, via, what, line), file=f.file, line=line, stmt="def " + f.node.name))
+
+
+WHAT["RF9"] = "no mutable class-level container is filled through an instance (self.x.append(...) on a list defined in the class body): all instances - and all runs in one process - would share it"
+
+_RF9_CONTROL = '''
+class Control(object):
+    seen = []
+    def note(self, x):
+        self.seen.append(x)
+'''
+
+
+def shared_class_containers(cls_node):
+    """-> [(attr, method, line)]: class-body containers that a method mutates through self without any method (or the class's
+    __init__) rebinding self.attr first"""
+    containers = {}
+    for n in cls_node.body:
+        if isinstance(n, ast.Assign) and _is_container_expr(n.value) and not (isinstance(n.value, (ast.List, ast.Dict, ast.Set)) and (getattr(n.value, "elts", None) or getattr(n.value, "keys", None))):
+            for t in n.targets:
+                if isinstance(t, ast.Name):
+                    containers[t.id] = n.lineno
+    if not containers:
+        return []
+    rebound = set()
+    hits = []
+    # a property that just returns self.<container> is another name of it
+    alias = {}
+    for m in cls_node.body:
+        if isinstance(m, ast.FunctionDef) and any(isinstance(d, ast.Name) and d.id == "property" for d in m.decorator_list) and m.args.args:
+            rets = [n for n in ast.walk(m) if isinstance(n, ast.Return)]
+            if len(rets) == 1 and isinstance(rets[0].value, ast.Attribute) and isinstance(rets[0].value.value, ast.Name) \
+                    and rets[0].value.value.id == m.args.args[0].arg and rets[0].value.attr in containers:
+                alias[m.name] = rets[0].value.attr
+    for m in cls_node.body:
+        if not isinstance(m, (ast.FunctionDef, ast.AsyncFunctionDef)) or not m.args.args:
+            continue
+        me = m.args.args[0].arg
+        for n in ast.walk(m):
+            if isinstance(n, (ast.Assign, ast.AnnAssign)):
+                for t in (n.targets if isinstance(n, ast.Assign) else [n.target]):
+                    if isinstance(t, ast.Attribute) and isinstance(t.value, ast.Name) and t.value.id == me and t.attr in containers:
+                        rebound.add(t.attr)
+    for m in cls_node.body:
+        if not isinstance(m, (ast.FunctionDef, ast.AsyncFunctionDef)) or not m.args.args:
+            continue
+        if any(isinstance(d, ast.Name) and d.id in ("classmethod", "staticmethod") for d in m.decorator_list):
+            continue
+        me = m.args.args[0].arg
+        for n in ast.walk(m):
+            tgt = None
+            if isinstance(n, ast.Call) and isinstance(n.func, ast.Attribute) and n.func.attr in _MUTATORS:
+                tgt = n.func.value
+            elif isinstance(n, (ast.Assign, ast.AugAssign)):
+                for t in (n.targets if isinstance(n, ast.Assign) else [n.target]):
+                    if isinstance(t, ast.Subscript):
+                        tgt = t.value
+            if isinstance(tgt, ast.Attribute) and isinstance(tgt.value, ast.Name) and tgt.value.id == me:
+                attr = alias.get(tgt.attr, tgt.attr)
+                if attr in containers and attr not in rebound:
+                    hits.append((attr, m.name, n.lineno))
+    return hits
+
+
+def check_shared_class_state(chk, ix, modules, rule="RF9", floor=1):
+    chk.rule(rule, WHAT["RF9"])
+    ctl = ast.parse(_RF9_CONTROL).body[0]
+    if not shared_class_containers(ctl):
+        raise AnalysisError("RF9 self-test: the positive control is not reported")
+    n = 0
+    for m in sorted(ix.modules.values(), key=lambda m_: m_.name):
+        if not any(m.name.startswith(p) for p in modules):
+            continue
+        for node in ast.walk(m.tree):
+            if not isinstance(node, ast.ClassDef):
+                continue
+            n += 1
+            chk.instance(rule)
+            hits = shared_class_containers(node)
+            if not hits:
+                chk.ok(rule, {"class": "%s:%s" % (m.name, node.name), "class-level containers filled through self": 0}, nontrivial_key=(m.name, node.name))
+            for (attr, meth, line) in hits:
+                chk.fail(Finding(rule, "%s:%s.%s" % (m.name, node.name, meth), "%s.%s" % (node.name, attr),
+                                 "%s.%s is a container defined in the class body and %s() fills it through self (line %d) without any method giving the "
+                                 "instance its own: every instance of %s - every reporter, every run in the same process - shares and keeps "
+                                 "its contents" % (node.name, attr, meth, line, node.name), file=m.relpath, line=line, stmt="def " + meth))
+    if n < floor:
+        raise AnalysisError("RF9: only %d classes found in %s" % (n, ", ".join(modules)))
